@@ -554,6 +554,10 @@ pub proof fn lemma_reaches_back<T: Eq + PartialOrd + Send + Sync, A: Clone>(g: G
 pub open spec fn wsteps<T: Eq + PartialOrd + Send + Sync, A: Clone>(g: Graph<T, A>, a: T, x: T) -> bool {
     g.succ_names(a).contains(x) || g.pred_names(a).contains(x)
 }
+// weak steps lead to node names only (from the coherence of the name-keyed adjacency maps: lemma_wsteps_known in u_coh); bounds the weak search
+pub open spec fn wsteps_known<T: Eq + PartialOrd + Send + Sync, A: Clone>(g: Graph<T, A>) -> bool {
+    forall|a: T, x: T| #[trigger] wsteps(g, a, x) ==> g.knows(x)
+}
 pub open spec fn wsteps_symmetric<T: Eq + PartialOrd + Send + Sync, A: Clone>(g: Graph<T, A>) -> bool {
     forall|a: T, x: T| #[trigger] wsteps(g, a, x) ==> wsteps(g, x, a)
 }
@@ -570,3 +574,29 @@ pub open spec fn node_names_of<T: Send, A>(v: Seq<Arc<Node<T, A>>>) -> Seq<T> {
 pub open spec fn spec_reversed<T: PartialOrd + Send, A>(e: Edge<T, A>) -> Edge<T, A> {
     Edge { u: e.v, v: e.u, attributes: e.attributes, weight: e.weight }
 }
+
+// a duplicate-free list of node names is no longer than the node vector (its names sit at pairwise different positions below n)
+pub proof fn lemma_distinct_known_len<T: Eq + PartialOrd + Send + Sync, A: Clone>(g: Graph<T, A>, s: Seq<T>)
+    requires g.wf_nodes(), s.no_duplicates(), forall|x: T| #[trigger] s.contains(x) ==> g.knows(x),
+    ensures s.len() <= g.n(),
+{
+    let ps = Seq::new(s.len(), |k: int| g.nodes_map@[s[k]] as int);
+    assert(ps.no_duplicates()) by {
+        assert forall|a: int, b: int| 0 <= a < ps.len() && 0 <= b < ps.len() && a != b implies ps[a] != ps[b] by {
+            assert(s.contains(s[a]) && s.contains(s[b]));
+            assert(g.nodes_vec@[g.nodes_map@[s[a]] as int].name == s[a]);
+            assert(g.nodes_vec@[g.nodes_map@[s[b]] as int].name == s[b]);
+        }
+    }
+    ps.unique_seq_to_set();
+    let range = vstd::set_lib::set_int_range(0, g.n() as int);
+    assert(ps.to_set().subset_of(range)) by {
+        assert forall|p: int| ps.to_set().contains(p) implies range.contains(p) by {
+            let k = choose|k: int| 0 <= k < ps.len() && ps[k] == p;
+            assert(s.contains(s[k]));
+        }
+    }
+    vstd::set_lib::lemma_int_range(0, g.n() as int);
+    vstd::set_lib::lemma_len_subset(ps.to_set(), range);
+}
+
